@@ -191,6 +191,7 @@ func HotSpotParamRuleJsonArrayParser(src []byte) (interface{}, error) {
 			MetricType:        hotspotRule.MetricType,
 			ControlBehavior:   hotspotRule.ControlBehavior,
 			ParamIndex:        hotspotRule.ParamIndex,
+			ParamKey:          hotspotRule.ParamKey,
 			Threshold:         hotspotRule.Threshold,
 			MaxQueueingTimeMs: hotspotRule.MaxQueueingTimeMs,
 			BurstCount:        hotspotRule.BurstCount,
